@@ -375,11 +375,16 @@ def _read_v2(ts, lines):
         if name == "NUMBER OF PORTS":
             ts.ports = int(arg)
             if len(seen) != 1:
-                ts.notes.append("number-of-ports-not-first")
+                ts.notes.append(("number-of-ports-not-first",
+                                 "[Number of Ports] must be the first keyword "
+                                 "after the option line"))
         elif name in ("TWO-PORT DATA ORDER", "TWO-PORT ORDER"):
             if name == "TWO-PORT ORDER":
                 # the specification's keyword is [Two-Port Data Order]
-                ts.notes.append("nonstandard-keyword:[Two-Port Order]")
+                ts.notes.append(("two-port-order-keyword",
+                                 "[Two-Port Order] is not a Touchstone 2.0 "
+                                 "keyword; the specification has "
+                                 "[Two-Port Data Order]"))
             if arg.upper() not in ("12_21", "21_12"):
                 raise FormatError("bad two-port order %r" % arg)
             ts.two_port_order = arg.upper()
@@ -771,14 +776,18 @@ def read_npd(data):
         got = [(name, what) for _, name, what, _ in npd.key]
         nums = [i for i, _, _, _ in npd.key]
         if nums != list(range(1, len(nums) + 1)):
-            npd.notes.append("field-key-numbering")
+            npd.notes.append(("field-key-numbering",
+                              "the '# field' key is not numbered 1..n"))
         if len(got) != len(want):
-            npd.notes.append("field-key-count:%d!=%d" % (len(got), len(want)))
+            npd.notes.append(("field-key-count", "the '# field' key lists %d "
+                              "fields, the data lines have %d" % (
+                                  len(got), len(want))))
         else:
             for (gn, gw), (wn, ww) in zip(got, want):
                 if gn != wn or (ww and gw != ww):
-                    npd.notes.append("field-key-name:%s %s!=%s %s" % (
-                        gn, gw, wn, ww))
+                    npd.notes.append(("field-key-name", "the '# field' key says "
+                                      "'%s %s' where the parameter list "
+                                      "implies '%s %s'" % (gn, gw, wn, ww)))
                     break
     return npd
 
